@@ -20,12 +20,11 @@ package regex
 
 //@ func new
 //@   assigns nothing
+//@   ensures [valid-iff] isnil(result1) == ufb_re_valid(regexStr)
 //@   ensures [usable] implies(isnil(result1), len(result0.flags) >= 1 && result0.re != nil && result0.initialized && result0.regexStr == regexStr && result0.re.pattern == regexStr)
 //@   ensures [flags-kept] implies(isnil(result1) && len(flags) >= 1, len(result0.flags) == len(flags) && result0.flags[0] == flags[0])
 //@   ensures [flags-default] implies(isnil(result1) && len(flags) == 0, len(result0.flags) == 1 && result0.flags[0] == Default)
 
-//@ func Deserialize
-//@   ensures [usable] implies(isnil(result1), len(result0.flags) >= 1 && implies(result0.flags[0] == Default || result0.flags[0] == Invert, result0.re != nil))
 
 //@ func (Regex).Match
 //@   requires [usable] len(r.flags) >= 1 && implies(r.flags[0] == Default || r.flags[0] == Invert, r.re != nil)
@@ -35,3 +34,27 @@ package regex
 //@   requires [usable] len(r.flags) >= 1 && implies(r.flags[0] == Default || r.flags[0] == Invert, r.re != nil)
 //@   assigns nothing
 //@   ensures [selection] result == reSel(r, str)
+
+// ---- wire form (C12) ---------------------------------------------------------------------
+// Serialize: "regex:<flag> <pattern>"; Deserialize: the flag from the part before
+// the first space, the pattern is EVERYTHING after the first space, verbatim
+// (spaces, ':', ';', ',', '%', '=', non-ASCII bytes are not special).
+//@ func (Flag).String
+//@   assigns nothing
+//@   ensures [name] result == flagName(f)
+//@ func NewFlag
+//@   assigns nothing
+//@   ensures [by-name] isnil(result1) == isFlagName(str) && implies(isnil(result1), result0 == flagOf(str))
+//@ func (Regex).Serialize
+//@   requires [one-flag] len(r.flags) == 1
+//@   assigns nothing
+//@   ensures [wire-form] isnil(result1) == r.initialized && implies(r.initialized, result0 == "regex:" + flagName(r.flags[0]) + " " + r.regexStr)
+//@   loop 1 invariant [names] len(flags) == rangeindex + 1 && rangeindex >= -1 && rangeindex < len(r.flags) && implies(len(flags) >= 1, flags[0] == flagName(r.flags[0]))
+//@ func Deserialize
+//@   assigns nothing
+//@   ensures [usable] implies(isnil(result1), len(result0.flags) >= 1 && implies(result0.flags[0] == Default || result0.flags[0] == Invert, result0.re != nil))
+//@   ensures [default-verbatim] implies(hasPrefix(str, "regex:default "), isnil(result1) == ufb_re_valid(substr(str, 14, len(str) - 14)) && implies(isnil(result1), result0.regexStr == substr(str, 14, len(str) - 14) && result0.re.pattern == result0.regexStr && result0.flags[0] == Default))
+//@   ensures [invert-verbatim] implies(hasPrefix(str, "regex:invert "), isnil(result1) == ufb_re_valid(substr(str, 13, len(str) - 13)) && implies(isnil(result1), result0.regexStr == substr(str, 13, len(str) - 13) && result0.re.pattern == result0.regexStr && result0.flags[0] == Invert))
+//@   ensures [noop-verbatim] implies(hasPrefix(str, "regex:noop "), implies(isnil(result1), result0.flags[0] == Noop))
+//@   ensures [no-space-is-noop] implies(!contains(str, " "), isnil(result1) && result0.flags[0] == Noop)
+//@   loop 1 invariant [flags-parsed] rangeindex >= -1 && implies(!contains(s[1], ",") && isFlagName(s[1]), len(flags) == rangeindex + 1 && implies(len(flags) == 1, flags[0] == flagOf(s[1]))) && implies(!contains(s[1], ","), rangeindex <= 0)
